@@ -18,7 +18,7 @@ def not_c05(sig):
 
 def mc_kv(tier):
     cfg = "MC_KV.cfg" if tier == "quick" else "MC_KV_thorough.cfg"
-    r = tlc_mc("MC_KV", cfg, timeout=3000)
+    r = tlc_mc("MC_KV", cfg, timeout=14400)
     if not r["ok"]:
         raise ToolError("the L0 specification violates its own properties: %s" % r["violated"])
     return r
@@ -314,15 +314,22 @@ def check_C08(tier, seed):
     sk = dict(invs=bt.SEEK_INVS)
     g14 = ("f14", 15, bt.seed_inc(14), 3, ["F14"], dict(invs=bt.SEEK_INVS))
     g2 = ("f2", 15, bt.seed_inc(14), 3, ["F2"], dict(invs=bt.SEEK_INVS))
+    # ranges with both bounds in the part of the tree the operations touch (all nine combinations of bound kinds)
+    rt = dict(invs=bt.RANGE_INVS, opkeys=range(9, 16))
+    rh = dict(invs=bt.RANGE_INVS, opkeys=range(1, 7))
     if tier == "quick":
         btree = bt.legs(v, "C08", readback=True,
-                        mcs=[("seek14o3", 15, bt.seed_inc(14), 3, 1, sk), ("seeke6", 6, [], 3, 2, sk)], guards=[g14, g2],
+                        mcs=[("seek14o3", 15, bt.seed_inc(14), 3, 1, sk), ("seeke6", 6, [], 3, 2, sk),
+                             ("range14t", 15, bt.seed_inc(14), 3, 1, rt), ("range14h", 15, bt.seed_inc(14), 3, 1, rh)],
+                        guards=[g14, g2],
                         gens=[("tail", 15, bt.seed_inc(14), 3, 1, dict(opkeys=range(9, 16))),
                               ("head", 15, bt.seed_inc(14), 3, 1, dict(opkeys=range(1, 7)))])
     else:
         btree = bt.legs(v, "C08", readback=True,
                         mcs=[("seek14o4", 15, bt.seed_inc(14), 4, 1, sk), ("seeke7", 7, [], 3, 3, sk),
-                             ("seek14d6", 15, bt.seed_inc(14), 6, 1, dict(invs=bt.SEEK_INVS, kinds=("del",)))],
+                             ("seek14d6", 15, bt.seed_inc(14), 6, 1, dict(invs=bt.SEEK_INVS, kinds=("del",))),
+                             ("range14t", 15, bt.seed_inc(14), 4, 1, rt), ("range14h", 15, bt.seed_inc(14), 4, 1, rh),
+                             ("rangee6", 6, [], 3, 2, dict(invs=bt.RANGE_INVS))],
                         guards=[g14, g2],
                         gens=[("inc14", 15, bt.seed_inc(14), 3, 1, {}),
                               ("tail5", 15, bt.seed_inc(14), 5, 1, dict(opkeys=range(9, 15), kinds=("del",))),
@@ -401,17 +408,19 @@ def l1_gens(v, gens, tag, stats, scope=None, sync_rule=None):
         stats.setdefault("configs", []).append(dict(name=name, behaviours=len(beh), profiles=profiles))
 
 
-def mc_page(tier, parts=("crash", "readers", "faults", "damage"), sensitive=()):
+def mc_page(tier, parts=("crash", "readers", "faults", "damage"), sensitive=(), deep=None):
     """Model-checks PageStore (the protocol as repaired in /repo) on the focused configurations.
     `sensitive`: (config, invariant) pairs that MUST be violated (the pinned protocol variants):
     a vacuity guard -- if the model cannot see the defect it cannot vouch for its absence."""
     tot = dict(states=0, transitions=0, configs=[])
-    suffix = "fixed" if tier == "quick" else "fixed_thorough"
     for p in parts:
+        # deep: the parts that get the thorough configuration in the thorough tier (default: all); each thorough
+        # configuration takes 5-30 minutes on 10 workers
+        suffix = "fixed_thorough" if tier != "quick" and (deep is None or p in deep) else "fixed"
         cfg = "MC_Page_%s_%s.cfg" % (p, suffix)
         if not os.path.exists(os.path.join(SPEC, cfg)):
             cfg = "MC_Page_%s_fixed.cfg" % p
-        r = tlc_mc("PageStore", cfg, timeout=3300, workers=10)
+        r = tlc_mc("PageStore", cfg, timeout=14400, workers=10)
         if not r["ok"]:
             raise ToolError("PageStore/%s violates %s" % (cfg, r["violated"]))
         tot["states"] += r["states"]
@@ -452,7 +461,7 @@ def c05_scope(sig):
 
 def check_C05(tier, seed):
     v = Verdict("C05")
-    mc = mc_page(tier)
+    mc = mc_page(tier, deep=("crash", "readers"))
     stats = {}
     gens = []
     if tier == "quick":
@@ -516,11 +525,11 @@ def check_C05(tier, seed):
     else:
         btree = bt.legs(v, "C05", readback=False,
                         mcs=[("inc14o4", 15, bt.seed_inc(14), 4, 1, {}), ("e8", 8, [], 3, 3, {}),
-                             ("inc9d7", 10, bt.seed_inc(9), 7, 1, dict(kinds=("del",))),
+                             ("inc9d6", 10, bt.seed_inc(9), 6, 1, dict(kinds=("del",))),
                              ("inc14x2", 15, bt.seed_inc(14), 2, 2, {}),
                              ("nest14o4", 15, bt.seed_nested(14, (1, 5, 10, 14)), 4, 1, dict(kinds=("del", "touch", "delb"))),
                              ("neste7", 7, [], 3, 3, nest)], guards=[f1, f13, f6],
-                        gens=[("sparse", 15, bt.seed_sparse(14, [2, 3, 5, 9, 12]), 3, 2, dict(opkeys=range(1, 10))),
+                        gens=[("sparse", 15, bt.seed_sparse(14, [2, 3, 5, 9, 12]), 3, 2, dict(opkeys=range(1, 7))),
                               ("dec12", 13, bt.seed_dec(12), 2, 2, {}),
                               ("inc14d5", 15, bt.seed_inc(14), 5, 1, dict(kinds=("del",))),
                               ("big14", 15, bt.seed_inc(14), 3, 1, dict(big=(3, 8, 12))),
